@@ -18,7 +18,7 @@ func init() {
 			"D3 applied or error (package.json) — within the handling of one update, the loop can move on to the next update only after a sjson.SetBytes for it, every other way out is a non-nil error (decided path-sensitively over the per-update 'matched' flag, which is reset for every update); " +
 			"D4 identity on no updates (package.json) — every call that changes the buffer is inside the per-update loop and what is written is the buffer read (possibly updated); the write and its directory creation are the only effects; " +
 			"D5 origin separator agreement (pom.xml) — origins are '@'-joined component lists: code that splits them on '@' re-joins with '@', and suffix operations on origins never use a bare component constant (they strip '@'+component), so patches are filed under the origin the writer looks up. " +
-			"Added in round 2: D6 pom.xml: a section is marked as handled under the origin whose patches are applied to it; D7 package.json: an entry is rewritten only on the 'current value == original version' edge; D8 no Trim-family call with a computed cutset in the manifest writers. Added in round 3: D9 candidate parents are identified with mavenutil.ProjectKey at every site and dependencies are matched on Key(); D10 a parent's requirements are filed under the path of the file that was opened. Added in round 7: D12 in buildPatches the 'property already set?' test reads the cell the guarded store fills (same origin key). NOT decided: byte-for-byte / token-for-token preservation and re-read equality (values); the pom.xml writer's per-token rewrite rules beyond D5.",
+			"Added in round 2: D6 pom.xml: a section is marked as handled under the origin whose patches are applied to it; D7 package.json: an entry is rewritten only on the 'current value == original version' edge; D8 no Trim-family call with a computed cutset in the manifest writers. Added in round 3: D9 candidate parents are identified with mavenutil.ProjectKey at every site and dependencies are matched on Key(); D10 a parent's requirements are filed under the path of the file that was opened. Added in round 7: D12 in buildPatches the 'property already set?' test reads the cell the guarded store fills (same origin key). Added in round 8: D13 every decoded <profile>/<plugin> element is handed to the nested writer (no path from the decode to the next token avoids it except an error return). NOT decided: byte-for-byte / token-for-token preservation and re-read equality (values); the pom.xml writer's per-token rewrite rules beyond D5.",
 		Run: runC13,
 		Controls: []Mutant{
 			{Name: "name-unescaped", File: "guidedremediation/internal/manifest/npm/packagejson.go", Old: "			key := gjson.Escape(name)", New: "			key := name", Rule: "D1-escaped-path", Site: "Write"},
@@ -82,6 +82,8 @@ func runC13(p *Prog, r *Report) {
 	c13ParentOrigin(p, r, "D10-parent-origin")
 	r.Rule("D11-writer-terminates", "pom.xml writer: the descent into profiles and plugins is one level deep")
 	recursionOneLevel(p, r, "D11-writer-terminates", "guidedremediation/internal/manifest/maven", "writeProject", 3, "the text handed to the nested call starts with the same <profile>/<plugin> element, so it re-enters itself with the same arguments until the stack overflows (a profile without <id>, which the POM schema allows, is enough) — a fatal error no caller can recover from")
+	r.Rule("D13-nested-elements", "pom.xml: every decoded <profile>/<plugin> element is handed to the nested writer")
+	nestedElementsReachTheNestedWriter(p, r, "D13-nested-elements")
 	r.Rule("D12-property-conflicts", "pom.xml: a property is set once; a second update wanting another value edits the dependency instead")
 	guardedInsertSameCell(p, r, "D12-property-conflicts", p.Func("guidedremediation/internal/manifest/maven", "buildPatches"), 1, "the test 'was this property already given a value?' reads another origin's table than the one the value is then stored in (the dependency's origin instead of the property's): for a profile dependency whose version is a property defined at the top level the test never sees the earlier value, so a second update silently replaces the value an earlier, correctly addressed update had set — that requirement is written with the other requirement's version")
 }
